@@ -15,7 +15,7 @@ PROPS = {
         "rule": "documents from grammars of HTML (inline styles, links, media, blockquotes, lists, headings, pre, hr, unknown tags, character-reference and raw control-character injections), Markdown, gemtext and plain text with URLs x sequences of 1..4 widths (-3..250); "
                 "error text quoting hostile status lines / media types / raw control characters through style.Problem; Scrub and SetLength on raw text with C0, DEL, C1, ESC, tabs; style expressions followed by layout pipelines; "
                 "C01misc: every second op takes the next of all C0 / DEL / C1 code points (then bidi, zero-width, line-separator, tag and annotation characters, which are printable for code and model alike), alone or as the introducer of a CSI / OSC / DCS / APC / PM / SOS sequence with BEL / ST terminators, at the start, in the middle, at the end and right at / before / after the cut of SetLength, inside the error texts that quote server bytes; "
-                "present group: every third item document gets one such character (all in turn) spelled raw, as a decimal / hexadecimal character reference with and without ';', upper-case X, leading zeros, double-escaped, percent-encoded, or a reference beyond U+10FFFF / to a surrogate / overlong, put into every string the item shows (names, handles, summaries, content under each media type, attachment names and links, embedded parents, actors, listed replies), also exactly where a line of the op's widths ends; "
+                "present group: every third item document gets one such character (all in turn) spelled raw, as a decimal / hexadecimal character reference with and without ';', upper-case X, leading zeros, double-escaped, percent-encoded, or a reference beyond U+10FFFF / to a surrogate / overlong, put into every string the item shows (names, handles, summaries, content under each media type, attachment names and links, embedded parents, actors, listed replies), also exactly where a line of the op's widths ends; every fifth op adds a small note / profile that carries the next control character in all its spellings at once in text, preformatted text, code, alt / title / src / href attributes, a tag name, attachment names and links, author names (HTML, Markdown, gemtext / plain text in turn); "
                 "the Safe predicate (printable, newline, complete SGR sequences only) is evaluated on every implementation output; non-trivial = the input contains a control character / a link / several widths; distinct by op content",
         "trusted": ["x/net/html and goldmark: the model renders the forest the real parser produced; the tokenizer never decodes character references inside element names (hypothesis tagsClean of the theorems)",
                     "URL.Host of a successfully dialled host contains no control characters (Actor.Name prints it)", LIBS["regexp"], LIBS["unicode"]],
